@@ -19,6 +19,7 @@ type fakePullStream struct {
 	in   chan *pubsubpb.StreamingPullRequest
 	mu   sync.Mutex
 	sent []*pubsubpb.ReceivedMessage
+	got  chan struct{} // signalled (non-blocking) at every Send
 }
 
 func (f *fakePullStream) SetHeader(metadata.MD) error  { return nil }
@@ -44,6 +45,12 @@ func (f *fakePullStream) Send(r *pubsubpb.StreamingPullResponse) error {
 	f.mu.Lock()
 	f.sent = append(f.sent, r.ReceivedMessages...)
 	f.mu.Unlock()
+	if f.got != nil {
+		select {
+		case f.got <- struct{}{}:
+		default:
+		}
+	}
 	return nil
 }
 
@@ -94,4 +101,38 @@ func settle() {
 		time.Sleep(500 * time.Microsecond)
 	}
 	synctest.Wait()
+}
+
+// streamUntilFirst opens a StreamingPull on the real handler and waits (blocked
+// on a channel, i.e. durably for the bubble) until the stream has sent at least
+// one message, the handler ended, or maxWait of virtual time passed; then it
+// ends the stream.  This is the streaming counterpart of a blocking Pull.
+func streamUntilFirst(srv pubsubpb.SubscriberServer, base context.Context, first *pubsubpb.StreamingPullRequest, maxWait time.Duration) ([]*pubsubpb.ReceivedMessage, error) {
+	ctx, cancel := context.WithCancel(base)
+	defer cancel()
+	f := &fakePullStream{ctx: ctx, in: make(chan *pubsubpb.StreamingPullRequest), got: make(chan struct{}, 1)}
+	done := make(chan error, 1)
+	go func() { done <- srv.StreamingPull(f) }()
+	timer := time.NewTimer(maxWait)
+	defer timer.Stop()
+	var herr error
+	finished := false
+	select {
+	case f.in <- first:
+		select {
+		case <-f.got:
+		case herr = <-done:
+			finished = true
+		case <-timer.C:
+		}
+	case herr = <-done:
+		finished = true
+	}
+	cancel()
+	if !finished {
+		herr = <-done
+	}
+	f.mu.Lock()
+	defer f.mu.Unlock()
+	return f.sent, herr
 }
